@@ -16,6 +16,8 @@
       pointers never alias (the translator rejects pointer parameters that are
       written through); fields whose types are outside the subset are left out
       of the record and any use of them stops the translation;
+    - a range over a map visits [mord site m], where the parameter [mord] is only
+      assumed to return a permutation of its argument (Go leaves the order unspecified);
     - time.Now().Unix() is the parameter [now]; crc32 is the bitwise model Crc32.v;
     - a [for] loop with a condition runs on explicit fuel; running out of fuel is
       the distinguished outcome [GFuel], excluded by the theorems' statements. *)
@@ -118,6 +120,10 @@ Fixpoint adel {V} (m : list (bytes * V)) (k : bytes) : list (bytes * V) :=
   | [] => []
   | (k', v) :: r => if bytes_eqb k' k then adel r k else (k', v) :: adel r k
   end.
+
+(** the inner map of m[a][b] = v: a missing key gives a nil map, and a store into a nil map panics *)
+Definition gmapget {V} (m : list (bytes * V)) (k : bytes) : gres V :=
+  match alookup m k with Some v => GOk v | None => GPanic end.
 
 (** loops.  A loop body yields the new values of the variables it assigns
     ([LNext]: fell through or [continue]), [LBreak], or [LRet] (a [return]
